@@ -288,25 +288,23 @@ Theorem C08_smarts_parse_good : forall ts strong, forallb qwfb ts = true -> ts <
 Proof. exact SmartsParser.parse_good. Qed.
 Print Assumptions C08_smarts_parse_good.
 
-(* for EVERY text: a query container, or IncorrectSmiles / IncorrectSmarts / ValueError, or KeyError *)
-Theorem C08_smarts_full_errors : forall s e, smarts_full s = Err e -> vee e = true \/ e = KeyError.
-Proof. exact smarts_full_errors. Qed.
-Print Assumptions C08_smarts_full_errors.
+(* smarts_total for the WHOLE function, full statement: for EVERY text smarts() returns a query container or raises
+   IncorrectSmiles / IncorrectSmarts / ValueError (tokenizer totality of C03, parser totality above, the atom loop, the cis/trans
+   handling after fixes f821fac and 18f2b99 - both mark tables non-empty and distinct -, add_bond) *)
+Theorem C08_smarts_full_total : forall s e, smarts_full s = Err e -> vee e = true.
+Proof. exact smarts_full_total. Qed.
+Print Assumptions C08_smarts_full_total.
 
-(* smarts_total for the whole function is FALSE for the unchanged code (known finding smarts-stereo-popitem-keyerror, residual
-   after fix f821fac): a ring closure closing on its own atom next to one direction mark pops the same dictionary twice *)
-Theorem C08_smarts_full_total_refuted :
-  smarts_full "F/C=1=1" = Err KeyError /\ smarts_full "F/C1=1" = Err KeyError.
-Proof. exact smarts_full_total_refuted. Qed.
-Print Assumptions C08_smarts_full_total_refuted.
-
-(* ... and holds for every text whose parse leaves no direction marks (in particular every text without / and \) *)
-Theorem C08_smarts_full_total_partial : forall s e,
-  (forall ts toks ps pr, tokenize_raw s = Ok ts -> split_tokens ts = Ok (toks, ps) -> Parser.parse toks false = Ok pr ->
-     Parser.p_stereo_bonds pr = []) ->
-  smarts_full s = Err e -> vee e = true.
-Proof. exact smarts_full_total_partial. Qed.
-Print Assumptions C08_smarts_full_total_partial.
+(* the texts that crashed in earlier trees are now rejected with a ValueError-class exception, or read *)
+Theorem C08_smarts_full_examples :
+  smarts_full "F/C=1=1" = Err ValueError /\ smarts_full "F/C1=1" = Err ValueError /\
+  (exists r, smarts_full "C/C=C(/C)C(/C)=C/C" = Ok r) /\ (exists r, smarts_full "F/C(=C/F)=C/F" = Ok r) /\
+  smarts_full "" = Err ValueError /\ smarts_full "C/C=,#C/C" =
+    Ok ([(QElem 6 None (mkQX 0 false [] [] [] [] [] false), None); (QElem 6 None (mkQX 0 false [] [] [] [] [] false), None);
+         (QElem 6 None (mkQX 0 false [] [] [] [] [] false), None); (QElem 6 None (mkQX 0 false [] [] [] [] [] false), None)],
+        [mkSB 1 0 (mkQB [1] None) None; mkSB 2 1 (mkQB [2; 3] None) (Some false); mkSB 3 2 (mkQB [1] None) None]).
+Proof. exact smarts_full_examples. Qed.
+Print Assumptions C08_smarts_full_examples.
 
 (* ---------------------------------------------------------------------------------------------------------------- *)
 (* denotation of linear patterns.  Token level: for ANY chain  atom (bond-token? atom)*  of smarts_tokenize tokens (bond tokens of
@@ -354,9 +352,9 @@ Theorem C08_smarts_cx_none : forall s, smarts_cx s None = smarts_full s.
 Proof. exact smarts_cx_none. Qed.
 Print Assumptions C08_smarts_cx_none.
 
-Theorem C08_smarts_cx_errors : forall s cx e, smarts_cx s cx = Err e -> vee e = true \/ e = KeyError.
-Proof. exact smarts_cx_errors. Qed.
-Print Assumptions C08_smarts_cx_errors.
+Theorem C08_smarts_cx_total : forall s cx e, smarts_cx s cx = Err e -> vee e = true.
+Proof. exact smarts_cx_total. Qed.
+Print Assumptions C08_smarts_cx_total.
 
 Theorem C08_smarts_cx_examples :
   smarts_cx "[C;D2]C"%string (Some "|^1:1|"%string) =
@@ -369,3 +367,31 @@ Theorem C08_smarts_cx_examples :
   smarts_cx "C"%string (Some "^1:0"%string) = smarts_full "C"%string.
 Proof. exact smarts_cx_examples. Qed.
 Print Assumptions C08_smarts_cx_examples.
+
+(* ---------------------------------------------------------------------------------------------------------------- *)
+(* QueryContainer.add_atom normalisation and Query.copy *)
+(* g.add_atom('X') and g.add_atom(n) build the atom that smarts('[X]') / smarts('[#n]') builds (A: any atom, M: any metal) *)
+Theorem C08_add_atom_sym_is_smarts : forall s,
+  add_atom_norm (ASym s) = build_atom (mkParsed None None None None [ESym s] None None None None None false).
+Proof. exact add_atom_sym_is_smarts. Qed.
+Print Assumptions C08_add_atom_sym_is_smarts.
+Theorem C08_add_atom_num_is_smarts : forall n,
+  add_atom_norm (ANum n) = build_atom (mkParsed None None None None [ENum n] None None None None None false).
+Proof. exact add_atom_num_is_smarts. Qed.
+Print Assumptions C08_add_atom_num_is_smarts.
+
+(* g.add_atom(element atom) = from_atom without flags: matches exactly the atoms of that element, charge, radical state and
+   isotope (None / 0 = any), whatever their environment *)
+Theorem C08_add_atom_elem_spec : forall a b,
+  exists r, (match add_atom_norm (AElem a) with Ok q => match_atom q b | Err e => Err e end) = Ok r /\
+    (r = true <-> la_num a = la_num b /\ la_chg a = la_chg b /\ la_rad a = la_rad b /\ iso_ok (la_iso a) (la_iso b)).
+Proof. exact add_atom_elem_spec. Qed.
+Print Assumptions C08_add_atom_elem_spec.
+
+(* copy(full): comparison data kept; stereo mark and masked flag survive a full copy only; idempotent *)
+Theorem C08_qcopy_spec : forall full x,
+  fst (fst (qcopy full x)) = fst (fst x) /\
+  qcopy false x = (fst (fst x), None, false) /\
+  qcopy full (qcopy full x) = qcopy full x /\ qcopy false (qcopy true x) = qcopy false x.
+Proof. exact qcopy_spec. Qed.
+Print Assumptions C08_qcopy_spec.
